@@ -112,7 +112,7 @@ def hostile_xsd(rnd):
     names = rnd.sample(XSD_OK, 5)
     tname, ename = rnd.choice(XSD_OK), rnd.choice(XSD_OK)
     attrs = rnd.sample(XSD_OK, 3)
-    enums = rnd.sample(HOSTILE, 5)
+    enums = rnd.sample(HOSTILE + ["", " ", "{a}b"], 5)     # enumeration values are arbitrary strings too
     els = "".join(f'<xs:element name="{n}" type="{"t:" + tname if i == 0 else "xs:string"}" minOccurs="0"/>' for i, n in enumerate(names))
     ats = "".join(f'<xs:attribute name="{a}" type="{"t:" + ename if i == 0 else "xs:int"}"/>' for i, a in enumerate(attrs))
     en = "".join(f'<xs:enumeration value="{v}"/>' for v in enums)
@@ -130,8 +130,12 @@ def hostile_xml(rnd):
     return f"<root>{kids}{inner}{'text' if rnd.random() < 0.3 else ''}</root>"
 
 
+# JSON keys are arbitrary strings: empty, blank, brace-laden (the mappers treat names as Clark notation)
+HOSTILE_JSON = HOSTILE + ["", " ", "{", "}", "{urn:k}x", "a}b", "{}", "\t", "0", "a\nb", 'a"b', "a\\b"]
+
+
 def hostile_json(rnd):
-    names = rnd.sample(HOSTILE, 5)
+    names = rnd.sample(HOSTILE_JSON, 5)
     return json.dumps({names[0]: 1, names[1]: "x", names[2]: [1, 2], names[3]: {names[4]: None, names[0]: [{"a": 1}, {"A": "2"}]}, names[4]: []})
 
 
@@ -285,6 +289,32 @@ def needs_safe_prefix(name: str) -> bool:
     return (not slug) or (not slug[0].isalpha()) or bool(re.match(r"^-\d*\.?\d+$", name)) or keyword.iskeyword(name) or text.is_reserved(name)
 
 
+def f47_selector(files) -> bool:
+    """F47: some JSON key that names an OBJECT (and so becomes a class whose Meta.name is the raw key) holds a
+    character a Python string literal cannot contain as it stands."""
+    bad = set('"\\') | {chr(c) for c in range(32)}
+
+    def walk(x):
+        if isinstance(x, dict):
+            for k, v in x.items():
+                holds_object = isinstance(v, dict) or (isinstance(v, list) and any(isinstance(i, dict) for i in v))
+                if holds_object and set(k) & bad:
+                    return True
+                if walk(v):
+                    return True
+        elif isinstance(x, list):
+            return any(walk(i) for i in x)
+        return False
+
+    for text in files.values():
+        try:
+            if walk(json.loads(text)):
+                return True
+        except (ValueError, TypeError):
+            pass
+    return False
+
+
 def generation_case(ctx, kind, files, main, oname, opts, mut, traces, tag, must_generate=False):
     from xsdata.codegen.exceptions import CodegenError
 
@@ -301,7 +331,9 @@ def generation_case(ctx, kind, files, main, oname, opts, mut, traces, tag, must_
                 import traceback
 
                 tb = "".join(traceback.format_exception(type(gen.error), gen.error, gen.error.__traceback__))[-1500:]
-                ctx.violation(f"generation from {kind} raised {type(gen.error).__name__}: {gen.error} (not the generator's own error type)", {**info, "traceback": tb})
+                tags = ["F47"] if isinstance(gen.error, SyntaxError) and kind == "json-sample" and f47_selector(files) else []
+                ctx.violation(f"generation from {kind} raised {type(gen.error).__name__}: {gen.error} (not the generator's own error type)",
+                              {**info, "traceback": tb, "finding_tags": tags})
             return
         if log:
             traces.append({"id": f"{tag}", "steps": log})
@@ -496,6 +528,9 @@ def run(ctx):
     collision_generations(ctx, uniq, osets, traces)
     graph_generations(ctx, traces)
     cross_package_generations(ctx, traces)
+    # the finding F47 is exercised by its reproducer in every run (and its counterpart, the same key naming a VALUE)
+    generation_case(ctx, "json-sample", {"h.json": '{"a\\nb": {"k": 1}}'}, ["h.json"], "namespaces-camel", osets[5][1], osets[5][2], traces, "f47")
+    generation_case(ctx, "json-sample", {"h.json": '{"a\\nb": 1, "c\\"d": [2]}'}, ["h.json"], "namespaces-camel", osets[5][1], osets[5][2], traces, "f47-ok")
     # the finding F28 is exercised by its reproducer in every run
     generation_case(ctx, "xml-sample", {"h.xml": '<root><type self="1"/><\u0394 a="1">x</\u0394>text</root>'}, ["h.xml"], "default", {}, None, traces, "f28")
     # the repository's own fixtures through every option set
